@@ -1,5 +1,6 @@
 //@ item: integer/src/div_ops.rs :: impl IBig :: is_multiple_of
 pub fn is_multiple_of(&self, divisor: &Self) -> bool
+/*@ #[ref_operand(divisor)] @*/
 /*@
     requires
         divisor.0.v() != 0,                         // C02 "for every a and non-zero b" (documented panic otherwise, inside `%`)
